@@ -4,9 +4,12 @@ pub mod c01;
 pub mod c02;
 pub mod c03;
 pub mod c04;
+pub mod c09;
 pub mod c12;
+pub mod c13;
 pub mod c16;
 pub mod c18;
+pub mod c19;
 pub mod farm;
 
 pub fn jobs(prop: &str, tier: Tier) -> Option<(&'static str, Vec<Job>)> {
@@ -19,11 +22,18 @@ pub fn jobs(prop: &str, tier: Tier) -> Option<(&'static str, Vec<Job>)> {
         "C06" => ("model_checking", farm::jobs_c06(tier)),
         "C07" => ("model_checking", farm::jobs_c07(tier)),
         "C08" => ("model_checking", farm::jobs_c08(tier)),
-        "C10" => ("model_checking", farm::jobs_c10_explore(tier)),
+        "C09" => ("model_checking", c09::jobs_c09(tier)),
+        "C10" => ("model_checking", {
+            let mut j = farm::jobs_c10_explore(tier);
+            j.extend(c09::jobs_c10_grid(tier));
+            j
+        }),
         "C11" => ("model_checking", farm::jobs_c11(tier)),
         "C12" => ("model_checking", c12::jobs(tier)),
+        "C13" => ("model_checking", c13::jobs(tier)),
         "C16" => ("model_checking", c16::jobs(tier)),
         "C18" => ("model_checking", c18::jobs(tier)),
+        "C19" => ("model_checking", c19::jobs(tier)),
         _ => return None,
     })
 }
